@@ -21,7 +21,7 @@ Section One.
     | TLit _ => true
     | TVar y => Nat.eqb y x
     | TMap _ t' => t1 t'
-    | TFlat _ _ => false
+    | TFlat _ _ | TConcat _ _ => false
     end.
   Definition mentions (t : term) : bool := match tvars t with [] => false | _ => true end.
 
@@ -37,7 +37,7 @@ Section One.
 
   Lemma t1_tvars t : t1 t = true -> forall y, In y (tvars t) -> y = x.
   Proof.
-    induction t as [w|y|m t IH|id t IH]; cbn [t1 tvars]; intros H z Hz; try discriminate.
+    induction t as [w|y|m t IH|id t IH|id t IH]; cbn [t1 tvars]; intros H z Hz; try discriminate.
     - destruct Hz.
     - destruct Hz as [<-|[]]. now apply Nat.eqb_eq.
     - now apply IH.
@@ -46,7 +46,7 @@ Section One.
   (* the value of a one-variable term depends on the variable only *)
   Lemma tval_ev t e v : t1 t = true -> e x = v -> tval t e = tval t (ev v).
   Proof.
-    induction t as [w|y|m t IH|id t IH]; cbn [t1 Spec.tval]; intros H E; try discriminate.
+    induction t as [w|y|m t IH|id t IH|id t IH]; cbn [t1 Spec.tval]; intros H E; try discriminate.
     - reflexivity.
     - apply Nat.eqb_eq in H; subst y. unfold ev, upd. now rewrite Nat.eqb_refl.
     - f_equal. now apply IH.
@@ -54,7 +54,7 @@ Section One.
 
   Lemma term_bound t b v : t1 t = true -> lookup b x = Some v -> eval_term t b = [(b, tval t (ev v))].
   Proof.
-    induction t as [w|y|m t IH|id t IH]; cbn [t1 EvalPure.eval_term Spec.tval]; intros H L; try discriminate.
+    induction t as [w|y|m t IH|id t IH|id t IH]; cbn [t1 EvalPure.eval_term Spec.tval]; intros H L; try discriminate.
     - reflexivity.
     - apply Nat.eqb_eq in H; subst y. rewrite L. unfold ev, upd. now rewrite Nat.eqb_refl.
     - rewrite (IH H L). reflexivity.
@@ -62,14 +62,14 @@ Section One.
 
   Lemma term_closed t b : t1 t = true -> mentions t = false -> forall e, eval_term t b = [(b, tval t e)].
   Proof.
-    unfold mentions. induction t as [w|y|m t IH|id t IH]; cbn [t1 tvars EvalPure.eval_term Spec.tval]; intros H M e; try discriminate.
+    unfold mentions. induction t as [w|y|m t IH|id t IH|id t IH]; cbn [t1 tvars EvalPure.eval_term Spec.tval]; intros H M e; try discriminate.
     - reflexivity.
     - rewrite (IH H M e). reflexivity.
   Qed.
 
   Lemma term_closed_val t : t1 t = true -> mentions t = false -> forall e e', tval t e = tval t e'.
   Proof.
-    unfold mentions. induction t as [w|y|m t IH|id t IH]; cbn [t1 tvars Spec.tval]; intros H M e e'; try discriminate.
+    unfold mentions. induction t as [w|y|m t IH|id t IH|id t IH]; cbn [t1 tvars Spec.tval]; intros H M e e'; try discriminate.
     - reflexivity.
     - f_equal. now apply IH.
   Qed.
@@ -77,7 +77,7 @@ Section One.
   Lemma term_unbound t b : t1 t = true -> mentions t = true -> lookup b x = None ->
     eval_term t b = map (fun v => (bind b x v, tval t (ev v))) (dom x).
   Proof.
-    unfold mentions. induction t as [w|y|m t IH|id t IH]; cbn [t1 tvars EvalPure.eval_term Spec.tval]; intros H M L; try discriminate.
+    unfold mentions. induction t as [w|y|m t IH|id t IH|id t IH]; cbn [t1 tvars EvalPure.eval_term Spec.tval]; intros H M L; try discriminate.
     - apply Nat.eqb_eq in H; subst y. rewrite L. apply map_ext. intros v. unfold ev, upd. now rewrite Nat.eqb_refl.
     - rewrite (IH H M L), map_map. reflexivity.
   Qed.
